@@ -6,7 +6,8 @@ from props import common, generic, tree_common as tc
 
 
 def accessor_shapes(rep):
-    """shape obligations over the real accessor code (which child each accessor reads)"""
+    """(no longer used: superseded by the SMT shape cases of contracts/sql.py, which decide the accessors' results instead of
+    looking for code fragments; kept for reference) shape obligations over the real accessor code"""
     src = source()
     checks = [
         ('sqlparse.sql.NameAliasMixin.get_real_name', ["self.token_next_by(m=(T.Punctuation, '.'))", 'self._get_first_name(dot_idx, real_name=True)']),
@@ -68,7 +69,7 @@ def _run(rep, csql, joiner_cases):
               ('sqlparse.sql.TokenList._get_first_name', 'first name, forward'),
               ('sqlparse.sql.TokenList._get_first_name', 'first name, reverse')] + list(csql.C12_SHAPE_CASES)
         + list(joiner_cases) + tc.NAV_FUNCS,
-        structural=[replay_remove_quotes, accessor_shapes, tc.identity_side_conditions],
+        structural=[replay_remove_quotes, tc.identity_side_conditions],
         assumptions=['proved: quote removal (against its specification function), get_parent_name (the qualifier is the '
                      'unquoted value of the nearest non-whitespace child before the first dot, None without one; children '
                      'values non-empty is the stated precondition, C01/I3), the neighbour-search helpers the accessors '
